@@ -322,3 +322,11 @@ pub mod icmp_live {
         }
     }
 }
+
+pub mod net {
+    use std::net::IpAddr;
+
+    pub fn is_global_ip(ip: &IpAddr) -> bool {
+        crate::net_utils::is_global_ip(ip)
+    }
+}
